@@ -357,3 +357,100 @@ def _check_find_pred(ctx, body, src, span, side):
         rv[0][0][2][1].endswith('is_empty')
     ctx.require(good, clo, 'live-pred|' + side, '%s neighbour predicate is `!bytes.is_empty()` (live token)' % side,
                 '%s neighbour predicate is %s' % (side, sh(rv[0][0]) if rv else '?'), span)
+
+
+@rule('C03', 'R-C03-6', 'T10 WHO (single emitter)',
+      'every token id returned by merge_bytes is emitted by the single drain of the per-word id vector after the heap '
+      'loop; no other write to the result bypasses the canonical merge procedure')
+def r6(ctx):
+    body = _mb(ctx)
+    pop, loop = find_pop_loop(ctx, body)
+    rv = ret_values(body)
+    if len(rv) != 1:
+        raise AnchorMissing('single returned vector of merge_bytes')
+    res = nosite(rv[0][0])
+    writers = []
+    for t in body.terms('call'):
+        if not t.args or t.args[0].place is None:
+            continue
+        if not body.local_ty(t.args[0].place.local).startswith('&mut'):
+            continue
+        if nosite(sym(body, t.args[0])) == res:
+            writers.append(t)
+    if not writers:
+        raise AnchorMissing('no write to the result vector found')
+    for w in writers:
+        name = w.callee_res() or ''
+        good = name.endswith('Extend>::extend') and len(w.args) == 2
+        if good:
+            src = sym(body, w.args[1])
+            good = any(s[0] == 'call' and s[1].endswith('Iterator::flatten') for s in walk(src))
+            # and it is reached only after the heap loop finished
+            exits = [v for (u, v) in loop.exits(body)]
+            good = good and all(cfg.must_pass(body, 0, w.bb, via_blocks=exits) for _ in [0])
+        ctx.require(good, body, 'single-emitter|' + (name.rsplit('::', 1)[-1]),
+                    'result is written by extend(token_ids.into_iter().flatten()) after the heap loop (line %d)' % w.span['line'],
+                    'token ids are emitted at line %d by `%s` outside the canonical merge procedure (bypasses the '
+                    'lowest-id/leftmost merge order)' % (w.span['line'], name), w.span)
+    # every word goes through the heap loop: the loop header is on every path from the word iteration to the drain
+    drains = [w for w in writers if (w.callee_res() or '').endswith('Extend>::extend')]
+    word_loop = cfg.innermost_loop(body, [t for t in body.calls(r'Matches.*::next$|::next$') if 'Matches' in (t.callee_res() or '') or
+                                          'regex' in body.local_ty(t.args[0].place.local)][0].bb) if True else None
+    if drains and word_loop is not None:
+        # from the word-loop header, the only way to come back to it is through the heap loop header
+        back = cfg.iteration_paths_avoid(body, word_loop, word_loop.header, avoid_blocks=[loop.header])
+        # allow the loop's own exit (no more words)
+        ctx.require(not back, body, 'every-word-merged',
+                    'every word iteration passes through the merge heap loop before the next word',
+                    'a word iteration can reach the next word without running the merge heap loop (fast path bypassing the merges)',
+                    body.blocks[word_loop.header].term.span)
+
+
+@rule('C03', 'R-C03-7', 'MUST-PASS (both neighbours reconsidered)',
+      'after applying a merge, both the left-neighbour and the right-neighbour candidate searches are executed on '
+      'every path to the next iteration, and a found candidate is always pushed')
+def r7(ctx):
+    body = _mb(ctx)
+    pop, loop = find_pop_loop(ctx, body)
+    # the state update: store of Some(256 + id)
+    upd = None
+    for s in body.stmts():
+        if s.bb in loop.blocks and s.kind == 'assign' and s.lhs.proj and s.rv.kind == 'use' and \
+                'Option<u32>' in body.local_ty(s.lhs.local):
+            v = sym(body, s.rv.ops[0])
+            if v[0] == 'agg' and v[2].endswith('Option::Some'):
+                upd = s
+    if upd is None:
+        raise AnchorMissing('state update of the merge loop')
+    finds = []
+    for m in [t for t in body.calls(r'Option::map$') if t.bb in loop.blocks]:
+        src = sym(body, m.args[0])
+        if src[0] == 'call' and src[1].endswith('::find'):
+            it = src[2][0]
+            side = 'prev' if (it[0] == 'call' and it[1].endswith('Iterator::rev')) else 'next'
+            finds.append((side, m))
+    if len(finds) != 2:
+        raise AnchorMissing('the two neighbour searches')
+    for side, m in finds:
+        ok = all(cfg.must_pass(body, upd.bb, l, via_blocks=[m.bb]) for l in loop.latches)
+        ctx.require(ok, body, 'search-every-iteration|' + side,
+                    'the %s-neighbour candidate search runs in every iteration that applied a merge' % side,
+                    'the %s-neighbour candidate search (line %d) is skipped on some path after a merge was applied: a valid '
+                    'merge with that neighbour is never considered' % (side, m.span['line']), m.span)
+        # found candidate => pushed: from the Some(Some(..)) edge the push is unavoidable
+        pushes = [t for t in body.calls(r'BinaryHeap::push$') if t.bb in loop.blocks and
+                  any(nosite(s_) == nosite(sym(body, m.dest)) for s_ in walk(sym(body, t.args[1])))]
+        if len(pushes) != 1:
+            ctx.fail(body, 'push-for-candidate|' + side, 'expected one push of the %s candidate, found %d' % (side, len(pushes)), m.span)
+            continue
+        p = pushes[0]
+        # guards of the push: both option layers are Some; conversely the inner-Some edge leads only to the push
+        from analysis.sym import variant_facts_at
+        vf = [(t, n) for t, n in variant_facts_at(body, p.bb) if any(nosite(x) == nosite(sym(body, m.dest)) for x in walk(t))]
+        ctx.require(len(vf) >= 2 and all(n == {'Some'} for _, n in vf), body, 'push-iff-found|' + side,
+                    'the %s candidate is pushed under Some(Some(..)) only' % side, None, p.span)
+        inner = [g for g in guards_at(body, p.bb) if g.block in loop.blocks]
+        if inner:
+            last = max(inner, key=lambda g: len(cfg.dominators(body)[g.block]))
+            ok2 = all(cfg.must_pass(body, last.target, l, via_blocks=[p.bb]) for l in loop.latches)
+            ctx.require(ok2, body, 'found-implies-pushed|' + side, 'a found %s candidate is always pushed' % side, None, p.span)
